@@ -141,6 +141,22 @@ AMORPH = [
 ]
 
 
+# configuration variants: the same indicators under unusual-but-legal settings (naming, rounding, candlestick type)
+CONFIG_VARIANTS = [
+    ("EMA", dict(period=2), 1, dict(round_value=0)),
+    ("SMA", dict(period=2), 1, dict(round_value=2, name_suffix="r2")),
+    ("BBANDS", dict(period=2), 2, dict(fullname_override="BB")),
+    ("RSI", dict(period=2), 2, dict(name_suffix="x")),
+    ("MACD", dict(fast_period=2, slow_period=3, signal_period=2), 3, dict(fullname_override="M.1")),   # '.' is sanitised to ','
+    ("SMA", dict(period=2), 1, dict(candlestick_type="HA")),
+    ("ATR", dict(period=2), 2, dict(candlestick_type="HA", name_suffix="ha")),
+    ("STOCH", dict(period=2, slow_period=2, smoothing_k=2), 3, dict(input_value="high")),
+    ("KC", dict(period=2, multiplier=1.5), 2, dict(input_value="low")),
+    ("TSI", dict(period=3), 3, dict()),
+    ("VWMA", dict(period=3), 2, dict(round_value=1)),
+]
+
+
 def catalog(tier, max_variants=None):
     """[(map_name, kwargs, warmup)]; quick: first variant only for the expensive ones"""
     out = []
